@@ -93,7 +93,7 @@ def key_of(clause: str, it: dict, row: dict) -> str:
 def canary(items: list[dict], workers: int) -> None:
     """The judge must reject a corrupted record: flip what was observed in every row of three items."""
     bad = []
-    obs = [it for it in items if not it["lvl"].startswith("restore")]   # delivery is not observable in the restore path
+    obs = [it for it in items if not it["lvl"].startswith(("restore", "app"))]   # delivery is not observable in the restore path
     for it in (obs[0], obs[len(obs) // 2], obs[-1]):
         rows = [dict(r, delivered=not r["delivered"], written=not r["written"], refused=not r["refused"]) for r in it["rows"]]
         bad.append({"cfg": it["cfg"], "lvl": it["lvl"], "rows": rows})
@@ -169,6 +169,7 @@ def plan(tier: str, cfgs: list[dict], by_cfg: dict[int, list[dict]], seed: int) 
                 runs.append({"lvl": "file", "cfg": cfg, "rows": rows, "ids": X.IDS, "opts": {"eavesdrop": bool(ci % 2)}})
             if cfg["hgi"] != "implicit":
                 runs.append({"lvl": "restore", "cfg": cfg, "rows": rows, "ids": X.IDS, "opts": {}})
+                runs.append({"lvl": "app", "cfg": cfg, "rows": rows, "ids": X.IDS, "opts": {}})
         else:
             for eav in (False, True):
                 runs.append({"lvl": "gateway", "cfg": cfg, "rows": rows, "ids": X.IDS,
@@ -178,6 +179,8 @@ def plan(tier: str, cfgs: list[dict], by_cfg: dict[int, list[dict]], seed: int) 
                 runs.append({"lvl": "file", "cfg": cfg, "rows": rows, "ids": X.IDS, "opts": {"eavesdrop": bool(ci % 2)}})
             if base and cfg["hgi"] != "implicit":
                 runs.append({"lvl": "restore", "cfg": cfg, "rows": rows, "ids": X.IDS, "opts": {}})
+            if cfg["hgi"] != "implicit":
+                runs.append({"lvl": "app", "cfg": cfg, "rows": rows, "ids": X.IDS, "opts": {}})
     if tier == "thorough":  # every device type in the listed / unlisted roles (base configurations)
         base_cfgs = [(ci, c) for ci, c in enumerate(cfgs) if c["ph"] == "none" and c["fgn"] == "none" and c["hgi"] != "implicit"]
         for n, typ in enumerate(X.DEV_TYPES):
